@@ -419,3 +419,60 @@ def representatives_with_lightlike_difference(tier, rng, rep):
                     rep.fail("circle_rescaling", f"{c1}, {r1} vs {c0}, {r0}", inp)
             rep.attempt("segment_runs", inp, body)
             rep.case(key=(n, t), nontrivial=True, sample=inp if t == 0 else None)
+
+
+@bounded(P, "array_layouts", functions=[H + "Point.__init__", H + "Point.coords", H + "kleinian_to_poincare", H + "poincare_to_kleinian", H + "poincare_to_halfspace", H + "halfspace_to_poincare",
+                                        H + "Point.distance"],
+         note="the same coordinates supplied as arrays that are equal element by element but differ in memory layout (C order, Fortran order, transposed / axis-swapped views, "
+              "strided and reversed slices, nested lists): the constructed points and every model coordinate agree with the textbook chart maps")
+def array_layouts(tier, rng, rep):
+    from contracts import spec
+    N = 12 if tier == 'thorough' else 3
+    shapes = [(), (5,), (3, 4), (2, 3, 4), (3, 3), (1, 4)]
+    rep.rule = ("Klein coordinates k (|k| < 0.95) of composite shapes (), (5,), (3,4), (2,3,4), (3,3), (1,4), n = 2, 3; each given in model m in {klein, poincare, halfspace, hyperboloid, projective} "
+                "through 7 layouts; outputs: coords in all 5 models, distance to a fixed point; oracle: contracts/spec.py chart maps; non-trivial = layout whose leading axes cannot be merged without a copy")
+    rep.bound = f"{N} rounds x {len(shapes)} shapes x 5 models x 7 layouts"
+
+    def layouts(a):
+        out = {"c_order": np.ascontiguousarray(a), "nested_list": a.tolist(), "fortran_order": np.asfortranarray(a)}
+        if a.ndim >= 2:
+            out["coordinate_first_transposed"] = np.ascontiguousarray(np.moveaxis(a, -1, 0)).T if a.ndim == 2 else np.moveaxis(np.ascontiguousarray(np.moveaxis(a, -1, 0)), 0, -1)
+            big = np.zeros(a.shape[:-1] + (2 * a.shape[-1],)); big[..., ::2] = a
+            out["strided_slice"] = big[..., ::2]
+            out["reversed_view"] = np.ascontiguousarray(a[::-1])[::-1]
+        if a.ndim >= 3:
+            out["swapped_axes_view"] = np.ascontiguousarray(np.swapaxes(a, 0, 1)).swapaxes(0, 1)
+        return out
+    for t in range(N):
+        for shape in shapes:
+            n = 2 + (t + len(shape)) % 2
+            d = rng.normal(size=shape + (n,))
+            k = d / np.linalg.norm(d, axis=-1, keepdims=True) * rng.uniform(0.05, 0.95, size=shape + (1,))
+            q = h.Point(np.full(n, 0.1), model="klein")
+            for m in spec.MODELS:
+                given = np.asarray(spec.from_klein(k, m), dtype=float)
+                for lname, arr in layouts(given).items():
+                    inp = {"model_of_input": m, "layout": lname, "shape": list(shape), "n": n, "klein_coordinates": k.tolist()}
+                    nontriv = isinstance(arr, np.ndarray) and arr.ndim >= 3 and not arr.flags['C_CONTIGUOUS']
+
+                    def body():
+                        keep = np.array(arr, copy=True) if isinstance(arr, np.ndarray) else None
+                        p = h.Point(arr, model=m)
+                        for mo in spec.MODELS:
+                            got = np.asarray(p.coords(mo), dtype=float)
+                            want = np.asarray(spec.from_klein(k, mo), dtype=float)
+                            if mo == "projective":
+                                got, want = got / got[..., :1], want / want[..., :1]
+                            if got.shape != want.shape or not np.all(np.abs(got - want) <= 1e-7 * (1 + np.abs(want))):
+                                rep.fail("same_point_for_every_layout", f"input as {m} / {lname}: {mo} coordinates differ from the chart map by {np.max(np.abs(got - want)) if got.shape == want.shape else 'shape'}",
+                                         {**inp, "output_model": mo}); return
+                        dd = np.asarray(p.distance(q), dtype=float)
+                        wd = np.arccosh(np.maximum(1, spec.cosh_d_klein(k, np.full(n, 0.1))))
+                        if dd.shape != wd.shape or not np.all(np.abs(dd - wd) <= 1e-6):
+                            rep.fail("same_distance_for_every_layout", f"input as {m} / {lname}", inp); return
+                        if keep is not None and not np.array_equal(keep, arr):
+                            rep.fail("caller_array_unchanged", f"input as {m} / {lname}", inp)
+                    rep.attempt("entry_point_runs", inp, body)
+                    rep.case(key=(t, shape, m, lname), nontrivial=nontriv, sample=inp if (t, shape, m, lname) == (0, (3, 4), "poincare", "fortran_order") else None)
+                    if len(rep.failures) >= 3:
+                        return
